@@ -127,6 +127,15 @@ func body() {
 	arr[1].X = 5
 	const k8 int8 = 100
 	_ = k8
+	okc := n > 0
+	if okc { n = 10 }
+	if okc { n = 11 } else { n = 12 }
+	if c1 := n; okc { n = c1 }
+	if c2 := n; okc { n = c2 } else { n = 13 }
+	for okc { n = 14; break }
+	for c3 := 0; okc; { n = c3; break }
+	for ; okc; n++ { n = 15; break }
+	for c4 := 0; okc; c4++ { n = 16; break }
 outer:
 	for i := 0; i < 2; i++ {
 		for {
@@ -148,6 +157,17 @@ type textMut struct {
 
 // the catalogue (operator names mirror the message families of typecheck.go / cfg.go)
 var textMuts = []textMut{
+	// a constant non-boolean condition in each of the eight if / for forms of cfg.go (F11, repaired)
+	{"cond-ifStmt0-constant", `if okc { n = 10 }`, `if 1 { n = 10 }`},
+	{"cond-ifStmt1-constant", `if okc { n = 11 }`, `if "a" { n = 11 }`},
+	{"cond-ifStmt2-constant", `if c1 := n; okc {`, `if c1 := n; 1.5 {`},
+	{"cond-ifStmt3-constant", `if c2 := n; okc {`, `if c2 := n; 'x' {`},
+	{"cond-forStmt2-constant", `for okc { n = 14`, `for 1 { n = 14`},
+	{"cond-forStmt3-constant", `for c3 := 0; okc; {`, `for c3 := 0; "a"; {`},
+	{"cond-forStmt5-constant", `for ; okc; n++ {`, `for ; 2; n++ {`},
+	{"cond-forStmt7-constant", `for c4 := 0; okc; c4++ {`, `for c4 := 0; 0; c4++ {`},
+	{"cond-forStmt7-typed-constant", `for c4 := 0; okc; c4++ {`, `for c4 := 0; int8(1); c4++ {`},
+	{"cond-ifStmt2-nonconstant", `if c1 := n; okc {`, `if c1 := n; c1 {`},
 	// composite literals (structLitExpr, arrayLitExpr, mapLitExpr)
 	{"struct-literal-unknown-field", `point{X: 1, Y: 2, Name: "p"}`, `point{X: 1, Y: 2, Nme: "p"}`},
 	{"struct-literal-duplicate-field", `point{X: 1, Y: 2, Name: "p"}`, `point{X: 1, X: 2, Name: "p"}`},
